@@ -379,7 +379,8 @@ func (d *DryRun) allFindings() []Finding {
 	for _, f := range d.Findings {
 		for _, p := range dryForwarding {
 			if strings.HasPrefix(f.Class, p) {
-				out = append(out, Finding{"c05:forward-exactly-once/" + f.Class, f.What + " — with DryRun on every accepted span must be forwarded exactly once, whatever the decision"})
+				out = append(out, Finding{"c05:forward-exactly-once/" + f.Class, strings.Replace(f.What, "of KEPT trace", "of decided (would-be kept or dropped) trace", 1) +
+					" — with DryRun on every accepted span must be forwarded exactly once, whatever the decision"})
 				break
 			}
 		}
